@@ -436,7 +436,7 @@ func allKinds() []int {
 
 // concurrent: two threads serving different tagged requests.
 func concScenarios() []*mc.Scenario {
-	pairs := [][2]int{{kDirect, kCloneWith}, {kIgnoreSlash, kNotFound}, {kCloneStash, kDirect}, {kLookupClose, kIgnoreSlash}, {kHostDirect, kInfix}}
+	pairs := [][2]int{{kDirect, kCloneWith}, {kIgnoreSlash, kNotFound}, {kCloneStash, kDirect}, {kLookupClose, kIgnoreSlash}, {kHostDirect, kInfix}, {kInfix, kInfix}, {kHostDirect, kHostDirect}, {kCloneWith, kCloneWith}}
 	var out []*mc.Scenario
 	for _, p := range pairs {
 		p := p
@@ -458,7 +458,7 @@ func concScenarios() []*mc.Scenario {
 						}
 						for i := 0; i < 2; i++ {
 							if pv, stk := x.S.PanicOf(i); pv != nil {
-								return "panic", "panic", fmt.Sprintf("%v\n%s", pv, stk)
+								return "panic", "panic", fmt.Sprintf("%v\n%s", pv, mc.NormStack(stk, 10))
 							}
 						}
 						errs := append(append([]string{}, w.ws[0].errs...), w.ws[1].errs...)
